@@ -31,6 +31,6 @@ for c, props in FIXES.items():
             print(c, p, rc2, r[p]["violations"][:1])
     finally:
         sh("git checkout -- .")
-        sh("python3 /verif/tools/translate.py", "/verif")
+        sh("python3 /verif/tools/translate.py; python3 /verif/tools/translate_env.py", "/verif")
     res[c] = {"subject": subj, "checks": r}
 json.dump(res, open("/verif/seeded/fix-reverts.json", "w"), indent=1)
